@@ -126,7 +126,7 @@ fn run_scenario<T: Sc>(out: Option<&mut Out>, sc: &Scenario<T>, from: usize, to:
 
 pub fn stream(out: &mut Out, seed: u64, thorough: bool) {
     let mut rng = Rng::new(seed ^ 0xFA17);
-    let nbase = if thorough { 40 } else { 6 };
+    let nbase = if thorough { 40 } else { 10 };
     for b in 0..nbase {
         let mut fc = random_fit_case::<f64>(&mut rng, false, b * 3 + 1);
         // sequential flavours only: the order of derivative calls must be deterministic
@@ -151,7 +151,15 @@ pub fn stream(out: &mut Out, seed: u64, thorough: bool) {
         let kmax = if thorough { k } else { k.min(80) };
         // the fault-free run itself
         run_scenario::<f64>(Some(out), &sc, usize::MAX, usize::MAX, &format!("mode=none k=none total={} marks={:?}", k, marks).replace(' ', ""));
-        for idx in 0..kmax {
+        // every index below kmax, and ALWAYS the last calls of the run (the optimizer's final
+        // re-application of the accepted parameters, the evaluations of the statistics)
+        let mut idxs: Vec<usize> = (0..kmax).collect();
+        for idx in k.saturating_sub(14)..k {
+            if idx >= kmax {
+                idxs.push(idx);
+            }
+        }
+        for idx in idxs {
             run_scenario::<f64>(Some(out), &sc, idx, idx + 1, &format!("mode=transient k={} total={}", idx, k));
             run_scenario::<f64>(Some(out), &sc, idx, usize::MAX, &format!("mode=persistent k={} total={}", idx, k));
         }
